@@ -9,11 +9,13 @@
 (*   Unparse   = unparse_raw                                                                             *)
 (* A deep expression is [nodes, ops, un] with nodes [k |-> "num", val] | [k |-> "var", v] | [k |-> "expr", e], *)
 (* ops [o, prio, comm], un a sequence of operator ids (first = applied last).                            *)
-(* DeclineEq = TRUE : the decline mask is also propagated to the right across an operator of EQUAL        *)
-(*                    priority unless both are the same commutative operator (code after the fix of F2)   *)
-(* DeclineEq = FALSE: only across strictly lower priority (pinned snapshot, defect F2)                    *)
+(* FoldRule = "mask"   : decline mask of the pinned snapshot (defect F2: not propagated across equal priority) *)
+(* FoldRule = "maskeq" : first repair candidate - also propagate across equal priority unless same commutative   *)
+(*                       operator; refuted by `x*2+3+4 mn 5` (found by the random traces, 5 operands)            *)
+(* FoldRule = "local"  : two numbers are folded iff they really are the operands of the operator, decided from   *)
+(*                       the operators still standing on both sides (code after the fix of F2)                   *)
 EXTENDS FlatImpl
-CONSTANT DeclineEq
+CONSTANT FoldRule
 
 DNum(val) == [k |-> "num", val |-> val]
 DVar(v)   == [k |-> "var", v |-> v]
@@ -58,19 +60,29 @@ DCompLoop(e, ord, i, nodes, dec, cur, st) ==
   IF i > Len(ord) THEN [nodes |-> nodes, used |-> st.used]
   ELSE LET b == ord[i]
            k == st.inds[i]
+           folded == [nodes |-> RemoveAt([nodes EXCEPT ![k] = DNum(Bin(e.ops[b].o, nodes[k].val, nodes[k + 1].val))], k + 1),
+                      dec   |-> RemoveAt(dec, k + 1),
+                      cur   |-> RemoveAt(cur, k),
+                      st    |-> [inds |-> [j \in 1..Len(st.inds) |-> IF st.inds[j] > k THEN st.inds[j] - 1 ELSE st.inds[j]],
+                                 used |-> st.used \cup {b}]]
        IN IF k < 1 \/ k + 1 > Len(nodes) THEN [nodes |-> nodes, used |-> st.used, panic |-> TRUE]
           ELSE IF nodes[k].k = "num" /\ nodes[k + 1].k = "num"
-          THEN IF ~dec[k] /\ ~dec[k + 1]
-               THEN DCompLoop(e, ord, i + 1,
-                              RemoveAt([nodes EXCEPT ![k] = DNum(Bin(e.ops[b].o, nodes[k].val, nodes[k + 1].val))], k + 1),
-                              RemoveAt(dec, k + 1), RemoveAt(cur, k),
-                              [inds |-> [j \in 1..Len(st.inds) |-> IF st.inds[j] > k THEN st.inds[j] - 1 ELSE st.inds[j]],
-                               used |-> st.used \cup {b}])
+          THEN IF FoldRule = "local"
+               THEN (* fold iff the two numbers really are the operands of this operator: the operator standing on the
+                       left is executed later (lower priority) or is the same commutative operator, the operator
+                       standing on the right is not executed earlier (not a higher priority) *)
+                    LET leftOk  == k = 1 \/ cur[k - 1].prio < cur[k].prio \/ (cur[k - 1].o = cur[k].o /\ cur[k].comm)
+                        rightOk == k = Len(cur) \/ cur[k + 1].prio <= cur[k].prio
+                    IN IF leftOk /\ rightOk
+                       THEN DCompLoop(e, ord, i + 1, folded.nodes, folded.dec, folded.cur, folded.st)
+                       ELSE DCompLoop(e, ord, i + 1, nodes, dec, cur, st)
+               ELSE IF ~dec[k] /\ ~dec[k + 1]
+               THEN DCompLoop(e, ord, i + 1, folded.nodes, folded.dec, folded.cur, folded.st)
                ELSE IF k > 1 /\ k < Len(cur)
                THEN LET d1 == IF dec[k + 1] /\ cur[k + 1].prio > cur[k].prio THEN [dec EXCEPT ![k] = TRUE] ELSE dec
                         sameAC == cur[k].o = cur[k + 1].o /\ cur[k].comm
                         d2 == IF d1[k] /\ ( \/ cur[k].prio > cur[k + 1].prio
-                                           \/ (DeclineEq /\ cur[k].prio = cur[k + 1].prio /\ ~sameAC) )
+                                           \/ (FoldRule = "maskeq" /\ cur[k].prio = cur[k + 1].prio /\ ~sameAC) )
                               THEN [d1 EXCEPT ![k + 1] = TRUE] ELSE d1
                     IN DCompLoop(e, ord, i + 1, nodes, d2, cur, st)
                ELSE DCompLoop(e, ord, i + 1, nodes, dec, cur, st)
